@@ -38,6 +38,8 @@ RUNS = [
     {"name": "B1rxn", "inputs": B1, "bs": None, "t": 0, "col": "rxn"},
     {"name": "B1/1@.9", "inputs": B1, "bs": 1, "t": 0.9, "col": "reaction"},
     {"name": "overlap/2", "inputs": B1[2:] + B2[:2], "bs": 2, "t": 0.5, "col": "reaction"},
+    {"name": "B1-nostats", "inputs": B1, "bs": None, "t": 0, "col": "reaction", "no_stats": True},
+    {"name": "B1/2-nostats", "inputs": B1, "bs": 2, "t": 0, "col": "reaction", "no_stats": True},
     {"name": "B1+cols", "inputs": B1, "bs": None, "t": 0, "col": "reaction",
      "extra_cols": ["carbon_balance_check", "unbalance_col"]},
     {"name": "B1-aam", "inputs": ["[CH3:1][C:2](=[O:3])[O:4][CH3:5]>>[CH3:1][C:2](=[O:3])[OH:4]"] + B1[:2], "bs": None,
@@ -45,7 +47,7 @@ RUNS = [
     {"name": "B1+aam", "inputs": ["[CH3:1][C:2](=[O:3])[O:4][CH3:5]>>[CH3:1][C:2](=[O:3])[OH:4]"] + B1[:2], "bs": None,
      "t": 0, "col": "reaction"},
 ]
-QUICK_RUNS = [0, 1, 3, 4, 6, 9, 12, 13, 14]
+QUICK_RUNS = [0, 1, 3, 4, 6, 9, 12, 13, 14, 15, 16]
 
 _bal = {}
 _ref = {}
@@ -84,7 +86,7 @@ def do_run(run, cache_dir):
     b.columns = base_cols + list(run.get("extra_cols", []))
     b.remove_aam = run.get("remove_aam", True)
     data = [{run["col"]: rx} for rx in run["inputs"]]
-    stats = {}
+    stats = None if run.get("no_stats") else {}
     buf = io.StringIO()
     try:
         with contextlib.redirect_stderr(buf), contextlib.redirect_stdout(buf):
